@@ -85,4 +85,36 @@ PROPS = {
         "assumptions": ["inputs <= 60 KiB (quick) / 200 KiB (thorough)"],
         "real": LZ_REAL, "stub": LZ_STUB,
     },
+
+    "C10": {
+        "level": "fault_enumeration",
+        "legs": {
+            "quick": [{"flavour": "asan", "runs": 16000, "seconds": 120},
+                      {"flavour": "tsan", "runs": 3000, "seconds": 60}],
+            "thorough": [{"flavour": "asan", "runs": 200000, "seconds": 900},
+                         {"flavour": "tsan", "runs": 30000, "seconds": 400}],
+        },
+        "nontrivial": "features",
+        "level_text": "Fault enumeration over the allocator seam: for each of 26 API flows (every public coder init + coding loop "
+                      "incl. the threaded coders under the deterministic scheduler, lzma_index_* append/dup/cat/encode/decode, "
+                      "filters copy/update, string conversions, Block Header and filter-flags decoding, single-call buffer API, "
+                      "file-info) a fault-free run counts the N allocations, then allocation k fails for every k <= N (the sweep "
+                      "index runs over consecutive values, so with the quick budget every k of every flow is hit several times), "
+                      "plus 'from the k-th on each fails with probability p' and histories that reuse one handle for several "
+                      "coders (some abandoned mid-stream) without lzma_end. Oracles: the affected call returns LZMA_MEM_ERROR/"
+                      "NULL, nothing else does; a failed init leaves 0 bytes live; caller-owned objects unchanged (both operands "
+                      "of a failed lzma_index_cat, destination of lzma_filters_copy, out-parameters); the handle can be "
+                      "re-initialised without lzma_end and then produces the fault-free result; the encoder stays usable after a "
+                      "failed lzma_filters_update; after lzma_end every byte is returned; free() never sees an unknown pointer; "
+                      "ASan/UBSan/TSan clean.",
+        "level_note": "Complete for single allocation failures of the listed flows at the fixed flow parameters (input, options); "
+                      "sampled for failure subsets, reuse histories and thread schedules. Failing pthread_create/mutex_init/"
+                      "cond_init is a separate configuration judged only on no crash/no leak.",
+        "rule": "One evaluation = one flow executed with one fault plan. distinct_nontrivial counts distinct (flow, index of the "
+                "failing allocation) pairs for single failures plus distinct plans for subset/history modes, counted only when at "
+                "least one allocation failure actually fired.",
+        "assumptions": ["flows use fixed small inputs (30 KB text, 3-Block/2-Stream .xz, .lzma, 2-member .lz)",
+                        "for the threaded flows 'the k-th allocation' is defined under the seed's schedule"],
+        "real": LZ_REAL, "stub": LZ_STUB,
+    },
 }
